@@ -372,3 +372,58 @@ func (w *Walker) ParseLast() bool {
 	}
 	return sinkErr == nil
 }
+
+// ConcSink keeps one goroutine's results alive without sharing a cache line with another goroutine's.
+type ConcSink struct {
+	S   string
+	F   float64
+	E   error
+	P20 *gocvss20.CVSS20
+	P30 *gocvss30.CVSS30
+	P31 *gocvss31.CVSS31
+	P40 *gocvss40.CVSS40
+	_   [64]byte
+}
+
+// ConcOps returns closures for one goroutine: ParseVector of vec, Vector() and all scoring methods on a
+// goroutine-private copy of the parsed object, results kept in the goroutine's own sink.
+func ConcOps(ver int, vec string, k *ConcSink) (parse, vector, scores func(), err error) {
+	switch ver {
+	case spec.V20:
+		p, e := gocvss20.ParseVector(vec)
+		if e != nil {
+			return nil, nil, nil, e
+		}
+		o := *p
+		return func() { k.P20, k.E = gocvss20.ParseVector(vec) }, func() { k.S = o.Vector() }, func() {
+			k.F = o.BaseScore() + o.TemporalScore() + o.EnvironmentalScore() + o.Impact() + o.Exploitability()
+		}, nil
+	case spec.V30:
+		p, e := gocvss30.ParseVector(vec)
+		if e != nil {
+			return nil, nil, nil, e
+		}
+		o := *p
+		return func() { k.P30, k.E = gocvss30.ParseVector(vec) }, func() { k.S = o.Vector() }, func() {
+			k.F = o.BaseScore() + o.TemporalScore() + o.EnvironmentalScore() + o.Impact() + o.Exploitability()
+		}, nil
+	case spec.V31:
+		p, e := gocvss31.ParseVector(vec)
+		if e != nil {
+			return nil, nil, nil, e
+		}
+		o := *p
+		return func() { k.P31, k.E = gocvss31.ParseVector(vec) }, func() { k.S = o.Vector() }, func() {
+			k.F = o.BaseScore() + o.TemporalScore() + o.EnvironmentalScore() + o.Impact() + o.Exploitability()
+		}, nil
+	}
+	p, e := gocvss40.ParseVector(vec)
+	if e != nil {
+		return nil, nil, nil, e
+	}
+	o := *p
+	return func() { k.P40, k.E = gocvss40.ParseVector(vec) }, func() { k.S = o.Vector() }, func() {
+		k.F = o.Score()
+		k.S = o.Nomenclature()
+	}, nil
+}
